@@ -477,7 +477,12 @@ class Term:
                     return t
             elif t.is_var():
                 if t.name in inst.var_inst:
-                    return inst.var_inst[t.name]
+                    s = inst.var_inst[t.name]
+                    # The replacement must be a closed term of the type of the variable
+                    # (get_type raises TypeCheckException on open terms).
+                    if s.get_type() != t.T:
+                        raise TermException("subst: type of %s does not match variable %s" % (s, t.name))
+                    return s
                 else:
                     return t
             elif t.is_const():
